@@ -37,7 +37,8 @@ THist ==
     /\ LET cur == {<<Rec[l].ids[i][1], Rec[l].ids[i][2]>> : i \in 1..Len(Rec[l].ids)}
            new == cur \ hseen
            newids == {p[2] : p \in new}
-       IN /\ Cardinality(newids) = Cardinality(new)
+       IN /\ Cardinality(cur) = Len(Rec[l].ids)                 \* no entry listed twice (one key stamped twice with one id)
+          /\ Cardinality(newids) = Cardinality(new)
           /\ \A x \in newids : x > hhi
           /\ \A p, q \in cur : p[2] = q[2] => p = q
           /\ hseen' = hseen \cup cur
